@@ -559,6 +559,13 @@ func genFacts(repo string) string {
 	pairList(&out, "decodeLogoutRequest_calls", callArgsAll(funcDecl(files["xml.go"], "DecodeLogoutRequest")))
 	pairList(&out, "sso_decode_call", callArgs(funcDecl(files["sso.go"], "ssoHandleFunc"), "xml.DecodeAuthNRequest"))
 	pairList(&out, "logout_decode_call", callArgs(funcDecl(files["logout.go"], "logoutHandleFunc"), "xml.DecodeLogoutRequest"))
+	// where the Destination checks get their arguments from
+	req := funcDecl(files["sso.go"], "checkRequestRequiredContent")
+	pairList(&out, "sso_destination_call", callArgsThunk(req, "verifyRequestDestinationOfAuthRequest"))
+	pairList(&out, "sso_required_locals", localDefs(req, []string{"idpMetadata", "authNRequest", "sp"}))
+	pairList(&out, "sso_required_params", paramNames(req))
+	pairList(&out, "sso_required_call", callArgsThunk(funcDecl(files["sso.go"], "ssoHandleFunc"), "checkRequestRequiredContent"))
+	pairList(&out, "attrquery_destination_call", callArgsThunk(funcDecl(files["attribute_query.go"], "attributeQueryHandleFunc"), "verifyRequestDestinationOfAttrQuery"))
 	pairList(&out, "endpoint_absolute_src", returnExprs(funcDeclRecv(files["endpoint.go"], "Endpoint", "Absolute")))
 	pairList(&out, "endpoint_relative_src", returnExprs(funcDeclRecv(files["endpoint.go"], "Endpoint", "Relative")))
 	return out.String()
@@ -752,5 +759,87 @@ func callArgsAll(fn *ast.FuncDecl) [][2]string {
 		}
 		return true
 	})
+	return out
+}
+
+// callArgsThunk: like callArgs, but an argument that is a function literal with the single statement `return X` is
+// rendered as "thunk:X".
+func callArgsThunk(fn *ast.FuncDecl, callee string) [][2]string {
+	if fn == nil {
+		problem("function for callArgsThunk(%s) not found", callee)
+		return nil
+	}
+	var out [][2]string
+	n := 0
+	ast.Inspect(fn.Body, func(nd ast.Node) bool {
+		if c, ok := nd.(*ast.CallExpr); ok && exprStr(c.Fun) == callee {
+			n++
+			if n > 1 {
+				return true
+			}
+			for i, a := range c.Args {
+				txt := types.ExprString(a)
+				if fl, ok := a.(*ast.FuncLit); ok {
+					txt = "funclit"
+					if len(fl.Body.List) == 1 {
+						if r, ok := fl.Body.List[0].(*ast.ReturnStmt); ok && len(r.Results) == 1 {
+							txt = "thunk:" + types.ExprString(r.Results[0])
+						}
+					}
+				}
+				out = append(out, [2]string{fmt.Sprintf("arg%d", i), txt})
+			}
+		}
+		return true
+	})
+	if n != 1 {
+		problem("%d calls of %s (expected exactly one)", n, callee)
+	}
+	return out
+}
+
+// localDefs: for each name, every `name := rhs` / `name = rhs` in the function (closures included), in order
+func localDefs(fn *ast.FuncDecl, names []string) [][2]string {
+	if fn == nil {
+		problem("function for localDefs not found")
+		return nil
+	}
+	want := map[string]bool{}
+	for _, n := range names {
+		want[n] = true
+	}
+	var out [][2]string
+	ast.Inspect(fn.Body, func(nd ast.Node) bool {
+		if a, ok := nd.(*ast.AssignStmt); ok && len(a.Lhs) == len(a.Rhs) {
+			for i, l := range a.Lhs {
+				if id, ok := l.(*ast.Ident); ok && want[id.Name] {
+					out = append(out, [2]string{id.Name, types.ExprString(a.Rhs[i])})
+				}
+			}
+		} else if ok {
+			for _, l := range a.Lhs {
+				if id, ok := l.(*ast.Ident); ok && want[id.Name] {
+					out = append(out, [2]string{id.Name, "multi:" + types.ExprString(a.Rhs[0])})
+				}
+			}
+		}
+		return true
+	})
+	return out
+}
+
+func paramNames(fn *ast.FuncDecl) [][2]string {
+	if fn == nil {
+		problem("function for paramNames not found")
+		return nil
+	}
+	var out [][2]string
+	i := 0
+	for _, f := range fn.Type.Params.List {
+		for _, n := range f.Names {
+			out = append(out, [2]string{fmt.Sprintf("param%d", i), n.Name})
+			i++
+		}
+	}
 	return out
 }
